@@ -13,8 +13,9 @@
   and `readBack` = the fields such arguments yield (`none` as soon as an operator, comment, expansion,
   tilde expansion or pathname-expansion pattern would be triggered, or the quotes do not close).
 
-  Part 3: line formats of the state-listing built-ins (`alias`, `typeset -p`/`export -p`/`readonly -p`,
-  `set`, `trap`, `umask`, `set +o`) and the way a fresh shell splits their words back into entries.
+  Part 3 (file `Listing.lean`): line formats of the state-listing built-ins (`alias`, `typeset -p` /
+  `export -p` / `readonly -p`, `set`, `trap`, `umask`) and how a fresh shell reads their words back;
+  here only `readBackDecl` (arguments of a declaration utility) and `joinSp`.
 
   Strings are `List Char` (Rust `char` = Unicode scalar value = Lean `Char`).
 -/
